@@ -9,7 +9,7 @@
 From Coq Require Import List NArith ZArith Bool Arith Lia.
 Import ListNotations.
 Require Import XV.Str XV.Json XV.TextFormat XV.Forest XV.Matcher XV.Differ XV.Path XV.WF XV.AttrProofs XV.XmlFmt XV.Projections
-               XV.XmlFmtProofs0 XV.XmlFmtProofs1 XV.XmlFmtProofs2 XV.XmlFmtProofs3 XV.XmlFmtProofs4.
+               XV.XmlFmtProofs0 XV.XmlFmtProofs1 XV.XmlFmtProofs2 XV.XmlFmtProofsR2 XV.XmlFmtProofs3 XV.XmlFmtProofs4.
 Require XV.Placeholder XV.PlaceholderUndo.
 Local Open Scope nat_scope.
 
@@ -17,7 +17,6 @@ Section Script.
 Variable c : cfg.
 Variable o : oracle.
 Variable rootns : list (option str * str).
-Hypothesis Hrep : c_replace c = false.
 Let ws := ws_text c.
 
 Fixpoint run_ok (st : fstate) (script : list gaction) : Prop :=
@@ -25,24 +24,41 @@ Fixpoint run_ok (st : fstate) (script : list gaction) : Prop :=
   | [] => True
   | a :: r =>
       match decode a with
-      | FOk d => step_ok rootns st d /\ forall st', handle_d c o rootns st d = FOk st' -> run_ok st' r
+      | FOk d => step_ok rootns st d /\ room_ok c st d /\ forall st', handle_d c o rootns st d = FOk st' -> run_ok st' r
       | FErr _ => True
       end
   end.
 
-Theorem handle_all_reject script : forall st st',
-  winv (fs_tree st) -> fs_ph st = ph_init -> run_ok st script ->
-  handle_all c o rootns st script = FOk st' ->
-  winv (fs_tree st') /\ fs_ph st' = ph_init /\ vr ws (fs_tree st') = vr ws (fs_tree st).
+(* the maker along the run: it only grows, by diff:replace openers *)
+Theorem handle_all_ph script : forall st st',
+  tinv (fs_ph st) -> run_ok st script -> handle_all c o rootns st script = FOk st' ->
+  tinv (fs_ph st') /\ sext (fs_ph st) (fs_ph st').
 Proof.
-  induction script as [|a r IH]; intros st st' HW Hph Hok H; cbn [handle_all] in H.
+  induction script as [|a r IH]; intros st st' Hph Hok H; cbn [handle_all] in H.
+  - inversion H; subst. split; [exact Hph|apply sext_refl].
+  - apply fbind_ok in H as (st1 & E1 & H). rewrite handle_action_decode in E1.
+    cbn [run_ok] in Hok. destruct (decode a) as [d|e]; [|discriminate]. cbn [fbind] in E1.
+    destruct Hok as (Hs & Hroom & Hr).
+    destruct (step_ph c o rootns st d st1 Hph Hs Hroom E1) as [P1 X1].
+    destruct (IH st1 st' P1 (Hr st1 E1) H) as [P2 X2]. split; [exact P2|eapply sext_trans; eauto].
+Qed.
+
+(* read with the final maker (or any later one) *)
+Theorem handle_all_reject S script : tinv S -> forall st st',
+  winv S (fs_tree st) -> tinv (fs_ph st) -> run_ok st script ->
+  handle_all c o rootns st script = FOk st' -> sext (fs_ph st') S ->
+  winv S (fs_tree st') /\ vr S ws (fs_tree st') = vr S ws (fs_tree st).
+Proof.
+  intros HS. induction script as [|a r IH]; intros st st' HW Hph Hok H HX; cbn [handle_all] in H.
   - inversion H; subst. auto.
   - apply fbind_ok in H as (st1 & E1 & H). rewrite handle_action_decode in E1.
     cbn [run_ok] in Hok. destruct (decode a) as [d|e]; [|discriminate]. cbn [fbind] in E1.
-    destruct Hok as [Hs Hr].
-    destruct (step_reject c o rootns Hrep st d st1 HW Hph Hs E1) as (I1 & P1 & V1).
-    destruct (IH st1 st' I1 P1 (Hr st1 E1) H) as (I2 & P2 & V2).
-    split; [exact I2|]. split; [exact P2|]. unfold ws in *. congruence.
+    destruct Hok as (Hs & Hroom & Hr).
+    destruct (step_ph c o rootns st d st1 Hph Hs Hroom E1) as [P1 X1].
+    destruct (handle_all_ph r st1 st' P1 (Hr st1 E1) H) as [P2 X2].
+    destruct (step_reject S HS c o rootns st d st1 HW Hph (sext_trans _ _ _ X2 HX) Hs Hroom E1) as (I1 & _ & V1).
+    destruct (IH st1 st' I1 P1 (Hr st1 E1) H HX) as (I2 & V2).
+    split; [exact I2|]. unfold ws in *. congruence.
 Qed.
 End Script.
 
@@ -57,7 +73,7 @@ Lemma canon_unfold ws0 tag attrs text tail kids :
   = XNode tag (sort_attrs attrs) (Some (ntxt ws0 (otxt text))) (ntxt ws0 tail) (map (canon ws0) kids).
 Proof. reflexivity. Qed.
 
-Lemma vr_canon ws0 : forall W, vr ws0 W = canon ws0 (erase_attrs (rw W)).
+Lemma vr_canon S ws0 : forall W, vr S ws0 W = canon ws0 (erase_attrs (rw S W)).
 Proof.
   induction W as [tag attrs text tail kids IH] using Placeholder.xtree_ind2.
   rewrite vr_unfold, rw_unfold. cbn [erase_attrs]. rewrite canon_unfold. cbn [xtext xtail xkids otxt sort_attrs fold_right].
@@ -72,14 +88,15 @@ Inductive unmarked : xtree -> Prop :=
     aget attrs INSERT_NAME = None -> aget attrs RENAME_NAME = None -> Forall unmarked kids ->
     unmarked (XNode tag attrs text tail kids).
 
-Lemma vr_plain ws0 : forall L, unmarked L -> PlaceholderUndo.npua L = true -> vr ws0 L = canon ws0 (erase_attrs L).
+Lemma vr_plain S ws0 : tinv S -> forall L, unmarked L -> PlaceholderUndo.npua L = true -> vr S ws0 L = canon ws0 (erase_attrs L).
 Proof.
+  intros HS.
   induction L as [tag attrs text tail kids IH] using Placeholder.xtree_ind2.
   intros HU HP. inversion HU as [? ? ? ? ? Hi Hr Hk]; subst.
   cbn [PlaceholderUndo.npua] in HP. apply andb_true_iff in HP as [HP Hpk]. apply andb_true_iff in HP as [Ht Htl].
   rewrite vr_unfold. cbn [erase_attrs]. rewrite canon_unfold. cbn [xtext xtail xkids otxt sort_attrs fold_right proj_tag xattrs xtag].
   change (dn l_rename) with RENAME_NAME. rewrite Hr.
-  rewrite (rstr_plain _ Ht), (rstr_plain _ Htl). f_equal. rewrite map_map.
+  rewrite (rstr_plain S HS _ Ht), (rstr_plain S HS _ Htl). f_equal. rewrite map_map.
   clear Ht Htl Hi Hr HU.
   induction kids as [|k r IHr]; [reflexivity|].
   inversion IH as [|? ? IHk IHrest]; subst. inversion Hk as [|? ? Uk Ur]; subst.
@@ -89,7 +106,7 @@ Proof.
   rewrite Ha. cbn [map]. f_equal; [apply IHk; assumption|apply IHr; assumption].
 Qed.
 
-Lemma npua_run_tree : forall L, PlaceholderUndo.npua L = true -> run_tree L.
+Lemma npua_run_tree S : forall L, PlaceholderUndo.npua L = true -> run_tree S L.
 Proof.
   induction L as [tag attrs text tail kids IH] using Placeholder.xtree_ind2. intros HP.
   cbn [PlaceholderUndo.npua] in HP. apply andb_true_iff in HP as [HP Hpk]. apply andb_true_iff in HP as [Ht Htl].
@@ -109,22 +126,23 @@ Proof. destruct t; cbn. unfold ntxt. destruct ws0; reflexivity. Qed.
 (* C10, tags / structure / texts / tails: the left document is what remains of the output when
    every marked change is rejected *)
 Theorem reject_format c o rootns script L T :
-  c_replace c = false ->
   PlaceholderUndo.npua L = true -> clean_tags L -> unmarked L ->
   run_ok c o rootns (FS L ph_init [(Some DIFF_PREFIX, DIFF_NS)]) script ->
   xml_format c o rootns ph_init script L = FOk T ->
   xequiv (ws_text c) (erase_attrs (reject T)) (erase_attrs L).
 Proof.
-  intros Hrep HP HC HU Hok H. unfold xml_format in H. apply fbind_ok in H as (st & E & H).
-  assert (HW : winv L).
+  intros HP HC HU Hok H. unfold xml_format in H. apply fbind_ok in H as (st & E & H).
+  destruct (handle_all_ph c o rootns script (FS L ph_init [(Some DIFF_PREFIX, DIFF_NS)]) st tinv_init Hok E) as [HS _].
+  set (S := fs_ph st) in *.
+  assert (HW : winv S L).
   { split; [apply npua_run_tree, HP|exact HC| |].
     - destruct L. cbn [PlaceholderUndo.npua] in HP. apply andb_true_iff in HP as [HP _]. apply andb_true_iff in HP as [_ HP]. exact HP.
     - inversion HU; subst. unfold is_inserted, ahas. cbn [xattrs]. now rewrite H0. }
-  destruct (handle_all_reject c o rootns Hrep script (FS L ph_init [(Some DIFF_PREFIX, DIFF_NS)]) st HW eq_refl Hok E) as (I & P & V).
-  cbn [fs_tree] in V. rewrite P in H.
-  destruct (finalize_run (fs_tree st) (wi_run _ I) (wi_tags _ I) (wi_tail _ I)) as (T' & F & _ & R).
+  destruct (handle_all_reject c o rootns S script HS (FS L ph_init [(Some DIFF_PREFIX, DIFF_NS)]) st HW tinv_init Hok E (sext_refl _)) as (I & V).
+  cbn [fs_tree] in V.
+  destruct (finalize_run S HS (fs_tree st) (wi_run _ _ I) (wi_tags _ _ I) (wi_tail _ _ I)) as (T' & F & _ & R).
   rewrite F in H. inversion H; subst T'. unfold xequiv.
-  rewrite R, erase_set_tail, canon_drop_set_tail, !canon_drop, <- vr_canon, V, (vr_plain _ L HU HP). reflexivity.
+  rewrite R, erase_set_tail, canon_drop_set_tail, !canon_drop, <- vr_canon, V, (vr_plain S _ HS L HU HP). reflexivity.
 Qed.
 
 (* ------------------------------------------------------------------ *)
@@ -155,12 +173,26 @@ Definition step_okb (st : fstate) (d : dact) : bool :=
   | _ => true
   end.
 
+Definition room_okb (st : fstate) (d : dact) : bool :=
+  match d with
+  | DTextIn _ t | DTextAfter _ t =>
+      negb (c_replace c) || N.leb (Placeholder.ctr (fs_ph st) + N.of_nat (length (norm_if c (otxt t)))) Placeholder.PUA_END
+  | _ => true
+  end.
+
+Lemma room_okb_sound st d : room_okb st d = true -> room_ok c st d.
+Proof.
+  destruct d; cbn [room_okb room_ok]; intros H; try exact I; intros Hr; rewrite Hr in H; cbn [negb orb] in H;
+    apply N.leb_le, H.
+Qed.
+
 Fixpoint run_okb (st : fstate) (script : list gaction) : bool :=
   match script with
   | [] => true
   | a :: r =>
       match decode a with
-      | FOk d => step_okb st d && match handle_d c o rootns st d with FOk st' => run_okb st' r | FErr _ => true end
+      | FOk d => step_okb st d && room_okb st d &&
+                 match handle_d c o rootns st d with FOk st' => run_okb st' r | FErr _ => true end
       | FErr _ => true
       end
   end.
@@ -186,7 +218,7 @@ Qed.
 Lemma run_okb_sound script : forall st, run_okb st script = true -> run_ok c o rootns st script.
 Proof.
   induction script as [|a r IH]; intros st H; cbn [run_okb run_ok] in *; [exact I|].
-  destruct (decode a) as [d|e]; [|exact I]. apply andb_true_iff in H as [H1 H2].
-  split; [apply step_okb_sound, H1|]. intros st' E. rewrite E in H2. apply IH, H2.
+  destruct (decode a) as [d|e]; [|exact I]. apply andb_true_iff in H as [H1 H2]. apply andb_true_iff in H1 as [H1 H3].
+  split; [apply step_okb_sound, H1|]. split; [apply room_okb_sound, H3|]. intros st' E. rewrite E in H2. apply IH, H2.
 Qed.
 End RunB.
